@@ -5,64 +5,8 @@
     or postfix operator is a primary); any further PParen node, around any subexpression, any number of times, is allowed.
     Theorem: parsing [toks p] gives [strip p]. Hence wrapping complete subexpressions of an accepted rendering in extra
     parentheses leaves the AST unchanged (C11), and parentheses override the default grouping (C02). *)
-From EE Require Import Chars OpTable Decimal Token Lexer Ast Parser Printer Api Etoks Utf8 ParserFuel ParserMono ParserSteps PrattFull.
+From EE Require Import Chars OpTable Decimal Token Lexer Ast Parser Printer Api Ptree Etoks Utf8 ParserFuel ParserMono ParserSteps PrattFull.
 Open Scope N_scope.
-
-Inductive ptree :=
-| PLit (l : literal)
-| PRef (n : str)
-| PParen (p : ptree)
-| PUn (n : str) (e : ptree)
-| PBin (nt : bool) (o : str) (l r : ptree)
-| PPost (e : ptree) (o : str)
-| PTern (c a b : ptree)
-| PFunc (n : str) (args : list ptree)
-| PList (es : list ptree)
-| PMap (kvs : list (ptree * ptree)).
-
-Fixpoint strip (p : ptree) : ast :=
-  match p with
-  | PLit l => ALit l
-  | PRef n => ARef n
-  | PParen q => strip q
-  | PUn n e => AUnary n (strip e)
-  | PBin nt o l r => mk nt o (strip l) (strip r)
-  | PPost e o => APostfix (strip e) o
-  | PTern c a b => ATernary (strip c) (strip a) (strip b)
-  | PFunc n args => AFunc n ((fix go (l : list ptree) : list ast := match l with [] => [] | x :: r => strip x :: go r end) args)
-  | PList es => AList ((fix go (l : list ptree) : list ast := match l with [] => [] | x :: r => strip x :: go r end) es)
-  | PMap kvs => AMap ((fix go (l : list (ptree * ptree)) : list (ast * ast) :=
-                         match l with [] => [] | (k, v) :: r => (strip k, strip v) :: go r end) kvs)
-  end.
-
-Fixpoint toks (p : ptree) : list token :=
-  match p with
-  | PLit l => [lit_tok l]
-  | PRef n => [TRef n]
-  | PParen q => paren (toks q)
-  | PUn n e => TOp n :: toks e
-  | PBin nt o l r => toks l ++ optoks nt o ++ toks r
-  | PPost e o => toks e ++ [TOp o]
-  | PTern c a b => toks c ++ TOp s_qmark :: toks a ++ TOp s_colon :: toks b
-  | PFunc n args =>
-      TFunc n :: TDelim DLParen ::
-      (fix go (l : list ptree) : list token :=
-         match l with [] => [] | x :: r => match r with [] => toks x | _ => toks x ++ TComma :: go r end end) args ++ [TDelim DRParen]
-  | PList es =>
-      TDelim DLBrack ::
-      (fix go (l : list ptree) : list token :=
-         match l with [] => [] | x :: r => match r with [] => toks x | _ => toks x ++ TComma :: go r end end) es ++ [TDelim DRBrack]
-  | PMap kvs =>
-      TDelim DLBrace ::
-      (fix go (l : list (ptree * ptree)) : list token :=
-         match l with
-         | [] => []
-         | (k, v) :: r => match r with
-                          | [] => toks k ++ TOp s_colon :: toks v
-                          | _ => toks k ++ TOp s_colon :: toks v ++ TComma :: go r
-                          end
-         end) kvs ++ [TDelim DRBrace]
-  end.
 
 Fixpoint psize (p : ptree) : nat :=
   match p with
@@ -85,7 +29,6 @@ Definition ppform (p : ptree) : bool := negb (is_pbin p) && negb (is_ptern p).
 (* the spines as the parser sees them: they end at a parenthesis *)
 Fixpoint prspine (p : ptree) : list str := match p with PBin _ o _ r => o :: prspine r | _ => [] end.
 Fixpoint plspine (p : ptree) : list str := match p with PBin _ o l _ => o :: plspine l | _ => [] end.
-Fixpoint pldepth (p : ptree) : N := match p with PBin _ _ l _ => pldepth l + 1 | _ => 0 end.
 
 Section PP.
 Variable tbl : optable.
@@ -122,20 +65,6 @@ Fixpoint wfp (p : ptree) : bool :=
   | PMap kvs => (fix go (l : list (ptree * ptree)) : bool := match l with [] => true | (k, v) :: r => wfp k && wfp v && go r end) kvs
   end.
 
-(* Parser.depth consumed on [toks p] *)
-Fixpoint pneed (p : ptree) : N :=
-  match p with
-  | PParen q => pneed q + 1
-  | PUn _ e => 1 + pneed e
-  | PBin _ _ l r => N.max (pneed l) (pldepth l + 1 + pneed r)
-  | PPost e _ => pneed e
-  | PTern c a b => N.max (pneed c) (pldepth c + 2 + N.max (pneed a) (pneed b))
-  | PFunc _ args => 1 + (fix go (l : list ptree) : N := match l with [] => 0 | x :: r => N.max (pneed x) (go r) end) args
-  | PList es => 1 + (fix go (l : list ptree) : N := match l with [] => 0 | x :: r => N.max (pneed x) (go r) end) es
-  | PMap kvs => 1 + (fix go (l : list (ptree * ptree)) : N :=
-                       match l with [] => 0 | (k, v) :: r => N.max (N.max (pneed k) (pneed v)) (go r) end) kvs
-  | _ => 1
-  end.
 Definition phgt (p : ptree) : Prop := ast_height (strip p) <= MAX_DEPTH.
 Definition proom (d : N) (p : ptree) : Prop := d + pneed p <= MAX_DEPTH.
 
@@ -170,7 +99,7 @@ Qed.
 Lemma Loop_of_P p : is_pbin p = false -> P p -> Loop p.
 Proof.
   intros NI HP z d k _ _ Hk Hh Hr. exists (strip p), []. split; [apply HP; assumption|]. split; [rewrite NI; reflexivity|].
-  intros g res Hg. exists g. replace (pldepth p) with 0 in Hg by (destruct p; try reflexivity; discriminate NI).
+  intros g res Hg. exists g. change (pldepth p) with 0 in Hg.
   rewrite N.add_0_r in Hg. exact Hg.
 Qed.
 
@@ -193,7 +122,7 @@ Lemma o_step nt o l r :
   wfp (PBin nt o l r) = true ->
   forall z D k, padm z (PBin nt o l r) -> pabsorb (PBin nt o l r) k -> kok k -> phgt (PBin nt o l r) ->
   D + pneed r <= MAX_DEPTH ->
-  forall g res, ploop g (D + 1) z (strip (PBin nt o l r)) k = Ok res ->
+  forall g res, ploop g D z (strip (PBin nt o l r)) k = Ok res ->
   exists f, ploop f D z (strip l) (optoks nt o ++ toks r ++ k) = Ok res.
 Proof.
   intros IH Hwf z D k Hadm Hsafe Hk Hh Hroom g res Hg.
@@ -288,8 +217,7 @@ Proof.
     + destruct Hshape as (nt' & y & tl' & -> & Hy & Hpy). exists nt', y, (tl' ++ optoks nt o ++ toks r).
       rewrite <- app_assoc. repeat split; [cbn [plspine]; right; exact Hy | exact Hpy].
     + subst tl. exists nt, o, (toks r). repeat split; [cbn [plspine]; left; reflexivity | exact Hpo].
-  - intros g res Hg. cbn [pldepth] in Hg.
-    replace (d + 1 + (pldepth l + 1)) with (d + 1 + pldepth l + 1) in Hg by lia.
+  - intros g res Hg.
     destruct (o_step nt o l r IH Hwf z (d + 1 + pldepth l) k Hadm Hsafe Hk Hh ltac:(lia) g res Hg) as [f Hf].
     destruct (Hloop f res Hf) as [f' Hf']. exists f'. unfold k2 in Hf'. rewrite <- !app_assoc. exact Hf'.
 Qed.
